@@ -7,7 +7,12 @@ package main
 
 import (
 	"bytes"
+	"crypto/rand"
 	"fmt"
+	"github.com/taurusgroup/multi-party-sig/internal/zzverif/drv"
+	"github.com/taurusgroup/multi-party-sig/pkg/math/curve"
+	"github.com/taurusgroup/multi-party-sig/pkg/math/polynomial"
+	"github.com/taurusgroup/multi-party-sig/pkg/math/sample"
 	"sort"
 	"strings"
 
@@ -853,6 +858,41 @@ func messageCases() []rtCase {
 		}
 		return sess.CMPSign(w.orig, w.ids, msg32), w.ids, w.pub, nil
 	})
+	// an unusually large (but legal) group: a key of 70 share holders dealt with the library's own polynomial
+	// arithmetic; the stored configuration of a member must restore to an equal object
+	cases = append(cases, rtCase{Name: "rt|frost.Config|large-group-n70", run: func() []finding {
+		kf := kinds["frost.Config"]
+		g := sess.Group
+		var ids []party.ID
+		for i := 0; i < 70; i++ {
+			ids = append(ids, party.ID(fmt.Sprintf("member-%02d", i)))
+		}
+		drv.Use(drv.NewDRBG("c15-large-group", *vkit.Seed))
+		secret := sample.Scalar(rand.Reader, g)
+		f := polynomial.NewPolynomial(g, 2, secret)
+		shares := map[party.ID]curve.Point{}
+		for _, id := range ids {
+			shares[id] = f.Evaluate(id.Scalar(g)).ActOnBase()
+		}
+		ck := make([]byte, 32)
+		ck[0] = 7
+		cfg := &frost.Config{ID: ids[3], Threshold: 2, PrivateShare: f.Evaluate(ids[3].Scalar(g)), PublicKey: secret.ActOnBase(), ChainKey: ck, VerificationShares: party.NewPointMap(shares)}
+		rest, _, fs := throughCodec(kf, cfg)
+		if rest == nil {
+			return append(fs, finding{rtSig(kf.name, "large group cannot be restored"), "the stored configuration of a member of a 70-party key does not restore"})
+		}
+		va, ea := oracle.ViewOf(cfg)
+		vb, eb := oracle.ViewOf(rest)
+		if ea != nil || eb != nil || len(va.Shares) != 70 || len(vb.Shares) != 70 || !va.Public.Equal(vb.Public) || va.Secret.Cmp(vb.Secret) != 0 {
+			return append(fs, finding{rtSig(kf.name, "large group differs after restore"), fmt.Sprintf("70-party configuration: %v %v, %d/%d table entries", ea, eb, len(va.Shares), len(vb.Shares))})
+		}
+		for id, pnt := range va.Shares {
+			if q, ok := vb.Shares[id]; !ok || !q.Equal(pnt) {
+				return append(fs, finding{rtSig(kf.name, "large group differs after restore"), "table entry of " + id + " differs"})
+			}
+		}
+		return fs
+	}})
 	// abort notices (round 0) are wire messages of the library too: what a party emits when it is stopped, or when it
 	// detects a fault, must survive the codec, and the peer that is given the restored notice must end with an error
 	for _, two := range []bool{false, true} {
